@@ -99,8 +99,9 @@ CHECKS = {
                 technique="TLC trace validation of registry-codec round trips",
                 text="Registered .201/.202 codecs over a Rows x Columns grid incl. 1-wide/high images, block sizes 4..64, levels 0..6, "
                      "BitsStored <= BitsAllocated, signed/unsigned; TLC checks byte identity; known finding keyed by a predicate TLC "
-                     "evaluates from the stream's COD marker.",
-                note=A_CONTRACT + "; the HT cleanup pass is not transcribed; third-party fixtures: see DESIGN.md"),
+                     "evaluates from the stream's COD marker. The 14 third-party OpenJPH/fo-dicom codestreams of test-data/htj2k/interop "
+                     "are decoded through the registered codecs and compared with their raw images.",
+                note=A_CONTRACT + "; the HT cleanup pass is not transcribed"),
     "C07": dict(engine="contract", level="model_checking", design_ref="DESIGN.md 7/C07",
                 technique="TLC evaluates the per-sample NEAR bound and range on traces",
                 text="Every P in 2..16 x NEAR sweep, NEAR-aware content (range ends, ramps of step 2N+1/2N, slow RGB ramps, saturated "
